@@ -26,8 +26,10 @@ VARIABLES cells,      \* heap of RandState objects: id -> [org, pos] (Free when 
           astream, asnap    \* abstract values (history variables of the requirement level)
 vars == <<cells, obj, snap, g, astream, asnap>>
 
-None == [org |-> <<"none">>, pos |-> 0]
-Free == [org |-> <<"free">>, pos |-> 0]
+\* origins are records [k: kind, a, b]: k = "seed" (a = the seed), "global" (a = global seed, b = draws before), "none", "free"
+Org(k, a, b) == [k |-> k, a |-> a, b |-> b]
+None == [org |-> Org("none", 0, 0), pos |-> 0]
+Free == [org |-> Org("free", 0, 0), pos |-> 0]
 Ids  == 1..MaxCells
 Init == /\ cells = [i \in Ids |-> Free] /\ obj = [o \in Objs |-> 0] /\ snap = [n \in Names |-> 0]
         /\ g = [seed |-> 0, draws |-> 0]
@@ -44,7 +46,7 @@ SeedGlobal(s) == /\ g' = [seed |-> s, draws |-> 0] /\ UNCHANGED <<cells, obj, sn
 Noise == /\ g.draws < MaxDraws /\ g' = [g EXCEPT !.draws = @ + 1] /\ UNCHANGED <<cells, obj, snap, astream, asnap>>
 
 \* RandState.mkFromSeed(s) kept by the user under name n
-Mk(n, s) == LET v  == [org |-> <<"seed", s>>, pos |-> 0]
+Mk(n, s) == LET v  == [org |-> Org("seed", s, 0), pos |-> 0]
                 i  == FreeId(obj, snap)
                 sn == [snap EXCEPT ![n] = i] IN
             /\ snap' = sn /\ cells' = Collect([cells EXCEPT ![i] = v], obj, sn) /\ asnap' = [asnap EXCEPT ![n] = v]
@@ -61,7 +63,7 @@ Restore(o, n) == /\ snap[n] # 0
 \* the object's state comes into being at its first use: seeded from the next draw of the global generator
 CanUse(o) == obj[o] # 0 \/ g.draws < MaxDraws
 Materialize(o) == IF obj[o] # 0 THEN [c |-> cells, ob |-> obj, g |-> g, a |-> astream[o]]
-                  ELSE LET v == [org |-> <<"global", g.seed, g.draws>>, pos |-> 0]
+                  ELSE LET v == [org |-> Org("global", g.seed, g.draws), pos |-> 0]
                            i == FreeId(obj, snap) IN
                        [c |-> [cells EXCEPT ![i] = v], ob |-> [obj EXCEPT ![o] = i], g |-> [g EXCEPT !.draws = @ + 1], a |-> v]
 
